@@ -125,15 +125,6 @@ Inductive res :=
 | Fuel          (* model ran out of fuel: declined *)
 | Panic.        (* Go nil dereference: the copy is not produced *)
 
-(* cells on which the Go code dereferences a nil pointer:
-   stash.go fnStash.clone calls c.object(s.arguments) without a nil check, and
-   s.arguments is nil for a function one of whose parameters is named `arguments`
-   (cmpl_evaluate.go cmplCallNodeFunction only creates the arguments object
-   when no parameter has that name). *)
-Definition otto_bad (c : cell) : bool :=
-  match c with CFn _ _ None _ => true | _ => false end.
-Definition no_bad (c : cell) : bool := false.
-
 Fixpoint clone_list (self : loc -> st -> res) (ls : list loc) (s : st) : res :=
   match ls with
   | [] => Ok s
@@ -146,15 +137,17 @@ Fixpoint clone_list (self : loc -> st -> res) (ls : list loc) (s : st) : res :=
 (* cloner.object / cloner.dclStash / ... : look the pointer up in the memo table;
    if absent allocate the copy, enter it in the table BEFORE descending (that is
    what terminates cycles), clone everything the cell refers to, then fill the
-   copy with the renamed cell. *)
-Definition step (bad : cell -> bool) (h : heap) (self : loc -> st -> res) (l : loc) (s : st) : res :=
+   copy with the renamed cell.  Absent fields (nil prototype, getter, setter, outer
+   stash, and since 4582d68 the arguments object of a function stash whose
+   function has a parameter named `arguments`) are not references and are copied
+   as absent; the only way not to return is a dangling pointer. *)
+Definition step (h : heap) (self : loc -> st -> res) (l : loc) (s : st) : res :=
   match lookup (memo s) l with
   | Some _ => Ok s
   | None =>
       match lookup h l with
       | None => Panic
       | Some c =>
-          if bad c then Panic else
           let l' := next s in
           match clone_list self (refs_cell c) (mkSt (out s) ((l, l') :: memo s) (next s + 1)) with
           | Ok s2 => Ok (mkSt ((l', map_cell (app_memo (memo s2)) c) :: out s2) (memo s2) (next s2))
@@ -163,17 +156,17 @@ Definition step (bad : cell -> bool) (h : heap) (self : loc -> st -> res) (l : l
       end
   end.
 
-Fixpoint clone_loc (bad : cell -> bool) (h : heap) (fuel : nat) (l : loc) (s : st) : res :=
+Fixpoint clone_loc (h : heap) (fuel : nat) (l : loc) (s : st) : res :=
   match fuel with
   | O => Fuel
-  | S n => step bad h (clone_loc bad h n) l s
+  | S n => step h (clone_loc h n) l s
   end.
 
 Definition init (n0 : loc) : st := mkSt [] [] n0.
 
-(* clone.go runtime.clone: the global object first, then the 32 fields of rt.global *)
-Definition clone_roots (bad : cell -> bool) (h : heap) (fuel : nat) (roots : list loc) (n0 : loc) : res :=
-  clone_list (clone_loc bad h fuel) roots (init n0).
+(* the cloner applied to a list of roots, left to right, with one memo table *)
+Definition clone_roots (h : heap) (fuel : nat) (roots : list loc) (n0 : loc) : res :=
+  clone_list (clone_loc h fuel) roots (init n0).
 
 (* ---- the runtime record around the heap ---- *)
 Record runtime := mkRt { rt_global : loc; rt_fields : list loc; rt_eval : loc }.
@@ -183,34 +176,12 @@ Inductive rres :=
 | RFuel
 | RPanic.
 
-(* otto: out.eval = out.globalObject.property["eval"].value.(Value).value.(ptr object)
-   — the CURRENT value of the global property named eval, which must be an object
-   or the type assertions panic.  [eval_name] is the interned name "eval". *)
-Definition eval_of_global (eval_name : Z) (h' : heap) (g' : loc) : option loc :=
-  match lookup h' g' with
-  | Some (CObj o) =>
-      match lookup (o_props o) eval_name with
-      | Some (PData (VRef e) _) => Some e
-      | _ => None
-      end
-  | _ => None
-  end.
-
-Definition clone_runtime_otto (eval_name : Z) (h : heap) (fuel : nat) (rt : runtime) (n0 : loc) : rres :=
-  match clone_roots otto_bad h fuel (rt_global rt :: rt_fields rt) n0 with
-  | Ok s =>
-      let f := app_memo (memo s) in
-      match eval_of_global eval_name (out s) (f (rt_global rt)) with
-      | Some e => ROk (out s) (memo s) (mkRt (f (rt_global rt)) (map f (rt_fields rt)) e)
-      | None => RPanic
-      end
-  | Fuel => RFuel
-  | Panic => RPanic
-  end.
-
-(* what Copy() has to do: also clone rt.eval, and rename it like every other field *)
-Definition clone_runtime_spec (h : heap) (fuel : nat) (rt : runtime) (n0 : loc) : rres :=
-  match clone_roots no_bad h fuel (rt_global rt :: rt_fields rt ++ [rt_eval rt]) n0 with
+(* clone.go runtime.clone (since 1f3ee72): the global object, the 32 fields of rt.global,
+   then out.eval = c.object(rt.eval): the direct-eval intrinsic is the runtime's own
+   record, cloned and renamed like every other field, whatever the global property
+   named eval holds at the time *)
+Definition clone_runtime (h : heap) (fuel : nat) (rt : runtime) (n0 : loc) : rres :=
+  match clone_roots h fuel (rt_global rt :: rt_fields rt ++ [rt_eval rt]) n0 with
   | Ok s =>
       let f := app_memo (memo s) in
       ROk (out s) (memo s) (mkRt (f (rt_global rt)) (map f (rt_fields rt)) (f (rt_eval rt)))
